@@ -290,7 +290,7 @@ class MinScaleKind(Kind):
         return [("scale", f"minscale.unwrap {fhex(st['ms'])} {hexlist(raws['raw'].ravel())}", lambda s: flist(s).reshape(()), 0.0)]
 
     def oracle(self, st, raws, obs, eps):
-        v, ms = obs["scale"], rnd(st["ms"], eps)
+        v, ms = obs["scale"], float(st["ms"])  # Loc(min_scale).loc is a float64 array whatever the dtype of the raw leaf
         e = []
         if not np.all(np.isfinite(v)) or not np.all(v > 0):
             e.append("scale not finite and > 0")
